@@ -36,6 +36,9 @@ type Case struct {
 	Script  pbt.Hex      `json:"script,omitempty"` // dest == script
 	Index   uint64       `json:"index,omitempty"`  // dest == existing
 	Rel     string       `json:"rel,omitempty"`    // amount relation the generator aimed at (informational)
+	// RepIn appends that many further copies of the last input (own txid, worth nothing), so
+	// that the input count reaches its three-byte prefix without 253 inputs being stored
+	RepIn int `json:"rep_in,omitempty"`
 }
 
 const (
@@ -53,6 +56,18 @@ func expand(c Case) ref.Tx {
 			outs[i] = c.Tx.Out[i%len(c.Tx.Out)]
 		}
 		m.Out = outs
+	}
+	if n := len(c.Tx.In); c.RepIn > 0 && c.RepIn <= 600 && n > 0 {
+		m.In = append([]ref.In{}, c.Tx.In...)
+		for j := 0; j < c.RepIn; j++ {
+			in := c.Tx.In[n-1]
+			in.TxID = append(pbt.Hex{}, in.TxID...)
+			if len(in.TxID) == 32 {
+				in.TxID[0], in.TxID[1] = byte(j), byte(j>>8)^0xc3
+			}
+			in.PrevSats = 0
+			m.In = append(m.In, in)
+		}
 	}
 	return m
 }
@@ -239,6 +254,9 @@ func judge(ctx *pbt.Ctx, c Case, before ref.Tx, tx *bt.Tx, opErr error, addr str
 	ctx.Label("dest=" + c.Dest)
 	ctx.Label("nout=" + noutClass(len(before.Out)))
 	ctx.Label("stdrate=" + rateClass(c.Quote.Std))
+	if len(before.In) >= 253 {
+		ctx.Label("inputs>=253")
+	}
 	ctx.Label("rel=" + c.Rel)
 	hasData := false
 	for _, o := range before.Out {
@@ -350,6 +368,9 @@ func judge(ctx *pbt.Ctx, c Case, before ref.Tx, tx *bt.Tx, opErr error, addr str
 		}
 	} else {
 		if len(after.Out) != len(before.Out)+1 {
+			if len(after.Out) == len(before.Out) {
+				return fmt.Errorf("the operation returned nil and added no output, but the transaction is not as it was before the call (%d outputs) [%s]", len(before.Out), desc())
+			}
 			return fmt.Errorf("change altered the output count %d -> %d [%s]", len(before.Out), len(after.Out), desc())
 		}
 		for i := range before.Out {
@@ -510,6 +531,10 @@ func genCase(t *rapid.T) Case {
 		c.NOut = n
 	}
 	c.Quote = genQuote(t)
+	// input count around the point where its prefix takes three bytes (independent of the output count)
+	if rapid.IntRange(0, 24).Draw(t, "many_in") == 0 {
+		c.RepIn = rapid.SampledFrom([]int{251, 252, 253, 254}).Draw(t, "total_in") - nin
+	}
 	m := expand(c)
 	nout := len(m.Out)
 
